@@ -13,7 +13,72 @@ pub enum T {
     LStr,
     Rec,
     Fun,
+    /// list of values that have no natural order (records, lists, functions) mixed with others
+    LX,
+    LBool,
 }
+
+/// Argument kinds of the built-in signature table.
+#[derive(Clone, Copy, PartialEq, Eq, Debug)]
+pub enum A {
+    N,
+    /// small non-negative integer literal (sizes, counts, indices)
+    Small,
+    S,
+    B,
+    LN,
+    LS,
+    LX,
+    LB,
+    /// any list
+    L,
+    R,
+    F,
+    /// function returning a string
+    FS,
+    /// predicate on numbers
+    P,
+    /// anything
+    X,
+    /// delimiter-like short string literal
+    Delim,
+}
+
+/// Every built-in except print / time_now, with the argument shapes it is meant for.
+pub const SIGS: &[(&str, &[A], T)] = &[
+    ("sqrt", &[A::N], T::Num), ("sin", &[A::N], T::Num), ("cos", &[A::N], T::Num), ("tan", &[A::N], T::Num),
+    ("asin", &[A::N], T::Num), ("acos", &[A::N], T::Num), ("atan", &[A::N], T::Num), ("log", &[A::N], T::Num),
+    ("log10", &[A::N], T::Num), ("exp", &[A::N], T::Num), ("abs", &[A::N], T::Num), ("floor", &[A::N], T::Num),
+    ("ceil", &[A::N], T::Num), ("round", &[A::N], T::Num), ("round", &[A::N, A::Small], T::Num), ("trunc", &[A::N], T::Num),
+    ("random", &[A::Small], T::Num),
+    ("min", &[A::LN], T::Num), ("max", &[A::LN], T::Num), ("avg", &[A::LN], T::Num), ("sum", &[A::LN], T::Num),
+    ("prod", &[A::LN], T::Num), ("median", &[A::LN], T::Num), ("median", &[A::N, A::N, A::N], T::Num),
+    ("min", &[A::N, A::N], T::Num), ("max", &[A::N, A::N, A::N], T::Num), ("sum", &[A::N, A::N], T::Num),
+    ("percentile", &[A::LN, A::Small], T::Num),
+    ("range", &[A::Small], T::LNum), ("range", &[A::Small, A::Small], T::LNum),
+    ("len", &[A::L], T::Num), ("len", &[A::S], T::Num), ("head", &[A::LN], T::Num), ("head", &[A::S], T::Str),
+    ("tail", &[A::LN], T::LNum), ("tail", &[A::S], T::Str), ("tail", &[A::LX], T::LX),
+    ("slice", &[A::LN, A::Small, A::Small], T::LNum), ("slice", &[A::S, A::Small, A::Small], T::Str),
+    ("concat", &[A::LN, A::LN], T::LNum), ("concat", &[A::LX, A::L], T::LX), ("concat", &[A::LS, A::LS, A::LS], T::LStr),
+    ("dot", &[A::LN, A::LN], T::Num),
+    ("unique", &[A::LN], T::LNum), ("unique", &[A::LX], T::LX), ("unique", &[A::LS], T::LStr),
+    ("sort", &[A::LN], T::LNum), ("sort", &[A::LX], T::LX), ("sort", &[A::LS], T::LStr),
+    ("sort_by", &[A::LN, A::F], T::LNum), ("sort_by", &[A::LS, A::FS], T::LStr),
+    ("reverse", &[A::LN], T::LNum), ("reverse", &[A::LX], T::LX), ("reverse", &[A::LS], T::LStr),
+    ("any", &[A::LB], T::Bool), ("all", &[A::LB], T::Bool),
+    ("map", &[A::LN, A::F], T::LNum), ("map", &[A::LN, A::FS], T::LStr), ("filter", &[A::LN, A::P], T::LNum),
+    ("every", &[A::LN, A::P], T::Bool), ("some", &[A::LN, A::P], T::Bool),
+    ("split", &[A::S, A::Delim], T::LStr), ("join", &[A::LS, A::Delim], T::Str), ("join", &[A::LN, A::Delim], T::Str),
+    ("replace", &[A::S, A::Delim, A::Delim], T::Str), ("trim", &[A::S], T::Str), ("uppercase", &[A::S], T::Str), ("lowercase", &[A::S], T::Str),
+    ("includes", &[A::S, A::Delim], T::Bool), ("includes", &[A::L, A::X], T::Bool),
+    ("format", &[A::S, A::X], T::Str), ("format", &[A::S, A::X, A::X], T::Str),
+    ("typeof", &[A::X], T::Str), ("arity", &[A::F], T::Num),
+    ("keys", &[A::R], T::LStr), ("values", &[A::R], T::LX), ("entries", &[A::R], T::LX),
+    ("group_by", &[A::LN, A::FS], T::Rec), ("count_by", &[A::LS, A::FS], T::Rec), ("group_by", &[A::LS, A::FS], T::Rec),
+    ("flatten", &[A::LX], T::LX), ("zip", &[A::LN, A::LS], T::LX), ("zip", &[A::LN, A::LN, A::LN], T::LX), ("chunk", &[A::L, A::Small], T::LX),
+    ("to_string", &[A::X], T::Str), ("to_number", &[A::S], T::Num), ("to_number", &[A::B], T::Num), ("to_bool", &[A::N], T::Bool),
+    ("ugt", &[A::X, A::X], T::Bool), ("ult", &[A::X, A::X], T::Bool), ("ugte", &[A::N, A::N], T::Bool), ("ulte", &[A::X, A::X], T::Bool),
+];
 
 pub struct PGen<'a> {
     pub rng: &'a mut Rng,
@@ -82,7 +147,81 @@ impl<'a> PGen<'a> {
                 1 => id("floor"),
                 _ => lam(&["x"], bin("+", id("x"), self.num_lit())),
             },
+            T::LX => self.unordered_list(0),
+            T::LBool => E::List((0..self.rng.below(4)).map(|_| E::Bool(self.rng.chance(1, 2))).collect()),
         }
+    }
+
+    /// A list whose elements have no natural order: records, lists and functions, some fresh
+    /// literals and some references to values allocated earlier.
+    fn unordered_list(&mut self, d: u32) -> E {
+        let n = self.rng.range(2, 5) as usize;
+        let mut xs = vec![];
+        for _ in 0..n {
+            let e = match self.rng.below(8) {
+                0 | 1 => E::Rec(vec![RK::Static("n".into(), self.num_lit())]),
+                2 => E::List(vec![lam(&["q"], id("q"))]),
+                3 => match self.var_of(T::Rec) {
+                    Some(v) => v,
+                    None => E::Rec(vec![RK::Static("k".into(), self.num_lit())]),
+                },
+                4 => match self.var_of(T::Fun) {
+                    Some(v) => v,
+                    None => lam(&["q"], bin("+", id("q"), self.num_lit())),
+                },
+                5 => match self.var_of(T::LX) {
+                    Some(v) => v,
+                    None => E::List(vec![E::Rec(vec![RK::Static("n".into(), self.num_lit())])]),
+                },
+                6 if d > 0 => self.expr(T::Rec, d - 1),
+                _ => lam(&["q"], bin("*", id("q"), self.num_lit())),
+            };
+            xs.push(e);
+        }
+        E::List(xs)
+    }
+
+    fn arg(&mut self, a: A, d: u32) -> E {
+        match a {
+            A::N => self.expr(T::Num, d),
+            A::Small => num(self.rng.range(0, 7)),
+            A::S => self.expr(T::Str, d),
+            A::B => self.expr(T::Bool, d),
+            A::LN => self.expr(T::LNum, d),
+            A::LS => self.expr(T::LStr, d),
+            A::LX => self.expr(T::LX, d),
+            A::LB => self.expr(T::LBool, d),
+            A::L => {
+                let t = *self.rng.pick(&[T::LNum, T::LStr, T::LX]);
+                self.expr(t, d)
+            }
+            A::R => self.expr(T::Rec, d),
+            A::F => self.expr(T::Fun, d),
+            A::FS => match self.rng.below(3) {
+                0 => id("to_string"),
+                1 => lam(&["v"], call(id("typeof"), vec![id("v")])),
+                _ => lam(&["v"], cond(bin(".==", call(id("typeof"), vec![id("v")]), st("number")), st("num"), st("other"))),
+            },
+            A::P => self.pred(d),
+            A::X => self.any(d),
+            A::Delim => st(*self.rng.pick(&[",", " ", "", "a", "-"])),
+        }
+    }
+
+    /// A call of some built-in whose result has type `t` (table-driven, every built-in).
+    fn builtin_call(&mut self, t: T, d: u32) -> Option<E> {
+        let c: Vec<&(&str, &[A], T)> = SIGS.iter().filter(|s| s.2 == t).collect();
+        if c.is_empty() {
+            return None;
+        }
+        let (name, args, _) = **self.rng.pick(&c);
+        let argv: Vec<E> = args.iter().map(|a| self.arg(*a, d)).collect();
+        // sometimes through `into` / `via` / spread arguments, which reach the same code
+        Some(match self.rng.below(8) {
+            0 if argv.len() == 1 => bin("into", argv[0].clone(), id(name)),
+            1 => call(id(name), vec![E::Spread(Box::new(E::List(argv)))]),
+            _ => call(id(name), argv),
+        })
     }
 
     fn pred(&mut self, d: u32) -> E {
@@ -99,7 +238,7 @@ impl<'a> PGen<'a> {
     }
 
     pub fn any(&mut self, d: u32) -> E {
-        let t = *self.rng.pick(&[T::Num, T::Str, T::Bool, T::LNum, T::LStr, T::Rec, T::Fun]);
+        let t = *self.rng.pick(&[T::Num, T::Str, T::Bool, T::LNum, T::LStr, T::Rec, T::Fun, T::LX]);
         self.expr(t, d)
     }
 
@@ -113,7 +252,25 @@ impl<'a> PGen<'a> {
             return self.leaf(other);
         }
         let d1 = d - 1;
+        if self.rng.chance(1, 4) {
+            if let Some(e) = self.builtin_call(t, d1) {
+                return e;
+            }
+        }
         match t {
+            T::LX => match self.rng.below(6) {
+                0 => self.leaf(T::LX),
+                1 => self.unordered_list(d1),
+                2 => E::List(vec![E::Spread(Box::new(self.expr(T::LX, d1))), self.any(d1)]),
+                3 => cond(self.expr(T::Bool, d1), self.expr(T::LX, d1), self.expr(T::LX, d1)),
+                4 => bin("where", self.expr(T::LX, d1), lam(&["v"], bin(".!=", call(id("typeof"), vec![id("v")]), st("string")))),
+                _ => self.unordered_list(d1),
+            },
+            T::LBool => match self.rng.below(3) {
+                0 => self.leaf(T::LBool),
+                1 => bin(*self.rng.pick(&["<", "<=", "==", "!=", ">"]), self.expr(T::LNum, d1), self.expr(T::Num, d1)),
+                _ => E::List((0..self.rng.below(4)).map(|_| self.expr(T::Bool, d1)).collect()),
+            },
             T::Num => match self.rng.below(25) {
                 0 | 1 => self.leaf(T::Num),
                 2 | 3 | 4 => {
@@ -366,12 +523,12 @@ impl<'a> PGen<'a> {
             }
             2 | 3 | 4 | 5 => {
                 // bare expression (assignment-free): the subject of EvalTwice
-                let t = *self.rng.pick(&[T::Num, T::Str, T::Bool, T::LNum, T::LStr, T::Rec]);
+                let t = *self.rng.pick(&[T::Num, T::Str, T::Bool, T::LNum, T::LStr, T::Rec, T::LX, T::LBool]);
                 vec![(Stmt::Expr(self.expr(t, d)), "bare-expr")]
             }
             6 | 7 if allow_output => {
                 let n = self.fresh();
-                let t = *self.rng.pick(&[T::Num, T::Str, T::LNum, T::Rec, T::Fun, T::LStr]);
+                let t = *self.rng.pick(&[T::Num, T::Str, T::LNum, T::Rec, T::Fun, T::LStr, T::LX]);
                 let e = self.expr(t, d);
                 self.vars.push((n.clone(), t));
                 vec![(Stmt::Output(n, Some(e)), "output-assign")]
@@ -382,7 +539,7 @@ impl<'a> PGen<'a> {
             }
             _ => {
                 let n = self.fresh();
-                let t = *self.rng.pick(&[T::Num, T::Num, T::Str, T::Bool, T::LNum, T::LNum, T::LStr, T::Rec, T::Rec, T::Fun, T::Fun]);
+                let t = *self.rng.pick(&[T::Num, T::Num, T::Str, T::Bool, T::LNum, T::LNum, T::LStr, T::Rec, T::Rec, T::Fun, T::Fun, T::LX, T::LX]);
                 let e = self.expr(t, d);
                 self.vars.push((n.clone(), t));
                 vec![(Stmt::Expr(assign(&n, e)), "bind")]
